@@ -456,6 +456,10 @@ class PE:
         if isinstance(v, int):
             return wrap(v, e["ty"])
         if isinstance(v, Lin):
+            fb, tb = INT_BITS.get(e.get("from_ty") or "", 64), INT_BITS.get(e.get("ty") or "", 64)
+            if tb < fb:
+                # truncation: the function no longer touches its argument only through comparisons with constants
+                raise Undecided("the argument is narrowed from %s to %s before it is compared (values >= 2^%d wrap)" % (e.get("from_ty"), e.get("ty"), tb))
             return v
         if isinstance(v, Adt):
             a = self.F.adts.get(v.adt)
